@@ -21,10 +21,12 @@ def _mc_configs(ctx):
     if ctx.quick:
         return quick
     return quick + [
-        {"cfg": "QuotaTree_mc_thr.cfg", "workers": 2, "timeout": 1500},
-        {"cfg": "QuotaTree_mc_memthr5.cfg", "workers": 4, "timeout": 1700},
-        {"cfg": "QuotaTree_mc_joint3.cfg", "workers": 4, "timeout": 1700},
-        {"cfg": "QuotaTree_mc_cpu3.cfg", "workers": ctx.pick(8, 16), "timeout": 1700, "heap": "8g"},
+        {"cfg": "QuotaTree_mc_thr.cfg", "workers": 2, "timeout": 1700},
+        {"cfg": "QuotaTree_mc_cpu2_n2.cfg", "workers": 2, "timeout": 1700},
+        {"cfg": "QuotaTree_mc_mem5.cfg", "workers": 3, "timeout": 1700},
+        {"cfg": "QuotaTree_mc_memthr4.cfg", "workers": 3, "timeout": 1700},
+        {"cfg": "QuotaTree_mc_joint3.cfg", "workers": 3, "timeout": 1700},
+        {"cfg": "QuotaTree_mc_cpu3.cfg", "workers": ctx.pick(8, 8), "timeout": 1700, "heap": "8g"},
     ]
 
 
@@ -60,13 +62,10 @@ def run(ctx):
                 cex.append((c["cfg"], res.name, Q.ops_of_behaviour(res.trace)))
             else:
                 raise InfraError("TLC run %s ended unexpectedly: %s" % (c["cfg"], res.summary()))
-        if c.get("coverage"):
-            tlc.require_coverage(res, ["NewGroup", "NewSubGroup", "UpdateDirect", "UpdateMerged"])
     cov = {}
     for c, res in mcs:
         if c.get("coverage"):
-            cov[c["cfg"]] = {k: v for k, v in tlc.coverage_summary(res).items()
-                             if k in ("Create", "Update", "NewGroup", "NewSubGroup", "UpdateDirect", "UpdateMerged")}
+            cov[c["cfg"]] = Q.action_coverage(res)     # vacuity guard (raises InfraError)
 
     # ---------------- 2. conformance: drive the real code
     tdir = ctx.subdir("traces")
@@ -93,8 +92,8 @@ def run(ctx):
                                  VERIF_MAXDEPTH=3, VERIF_MAXROOTS=1, VERIF_MEMVALS="[0,2]", VERIF_THRVALS="[2]",
                                  VERIF_CNTVALS="[0,1,2]", VERIF_PCTVALS="[0,50,100]", VERIF_CORES=2))
     # 2c T->I: TLC -simulate behaviours, the witnesses of the deviation classes and any spec counterexample
-    sim = tlc.run(ctx, "QuotaTree", "QuotaTree_sim.cfg", simulate={"num": ctx.pick(150, 3000), "file": True},
-                  depth=ctx.pick(10, 14), seed=ctx.seed, workers=1, timeout=900, name="sim")
+    sim = tlc.run(ctx, "QuotaTree", "QuotaTree_sim.cfg", simulate={"num": ctx.pick(40, 600), "file": True},
+                  depth=ctx.pick(8, 10), seed=ctx.seed, workers=1, timeout=900, name="sim")
     if sim.kind is not None and sim.kind != "invariant":
         raise InfraError("TLC simulation ended unexpectedly: %s" % sim.summary())
     beh = tlc.sim_behaviours(sim)
